@@ -213,7 +213,7 @@ func (x *Exec) invoke(s *State, f *Frame, cc *CallCtx, callee Value) (forks []*S
 		nf.Free = fv.Free
 		for i, fvv := range target.FreeVars {
 			if i < len(fv.Free) {
-				if pv, ok := fv.Free[i].(*PtrVal); ok && pv.Cell != nil {
+				if pv, ok := fv.Free[i].(*PtrVal); ok {
 					nf.Vars[fvv.Name()] = pv
 					nf.VarAddr[fvv.Name()] = true
 				}
@@ -362,6 +362,31 @@ func (x *Exec) havocCalleeMods(s *State, f *Frame, cc *CallCtx, callee Value) {
 	for _, comp := range comps {
 		x.havocPrefix(s, comp)
 	}
+	// captured variables the callee (or a literal nested in it) assigns
+	for _, a := range ms.CellAddrs {
+		fvar, ok := a.(*ssa.FreeVar)
+		if !ok {
+			continue
+		}
+		hit := false
+		for i, ff := range fv.Fn.FreeVars {
+			if ff == fvar && i < len(fv.Free) {
+				hit = true
+				switch p := fv.Free[i].(type) {
+				case *PtrVal:
+					if p.Cell != nil {
+						s.Cells[p.Cell] = s.freshValue("call.cell."+p.Cell.Name, p.Cell.Typ)
+					} else if p.Ref != nil {
+						// captured struct variable (modelled as a heap object)
+						x.havocPrefix(s, typeKey(p.Base))
+					}
+				}
+			}
+		}
+		if !hit {
+			ms.AllCells = true // a free variable of a nested literal: be conservative
+		}
+	}
 	if ms.AllCells {
 		for c := range s.Cells {
 			s.Cells[c] = s.freshValue("call.cell."+c.Name, c.Typ)
@@ -405,7 +430,7 @@ func (x *Exec) callContract(s *State, f *Frame, cc *CallCtx, target *ssa.Functio
 		pf.Free = fv.Free
 		for i, fvv := range target.FreeVars {
 			if i < len(fv.Free) {
-				if pv, ok := fv.Free[i].(*PtrVal); ok && pv.Cell != nil {
+				if pv, ok := fv.Free[i].(*PtrVal); ok {
 					pf.Vars[fvv.Name()] = pv
 					pf.VarAddr[fvv.Name()] = true
 				}
